@@ -63,6 +63,7 @@ func c02ops() []c02op {
 		{"dissoc-set", []int{mS}, same, func(a []string, c int) string { return f(`(dissoc %s "a")`, a[0]) }, nil},
 		{"subvec01", []int{mV}, same, func(a []string, c int) string { return f("(subvec %s 0 1)", a[0]) }, nil},
 		{"subvec1", []int{mV}, same, func(a []string, c int) string { return f("(subvec %s 1)", a[0]) }, nil},
+		{"subvec-empty-window", []int{mV}, same, func(a []string, c int) string { return f("(subvec %s 1 1)", a[0]) }, nil},
 		{"rest", []int{mSeq}, toL, func(a []string, c int) string { return f("(rest %s)", a[0]) }, nil},
 		{"vec", []int{mSeq}, toV, func(a []string, c int) string { return f("(vec %s)", a[0]) }, nil},
 		{"seq", []int{mSeq}, toL, func(a []string, c int) string { return f("(seq %s)", a[0]) }, nil},
